@@ -273,3 +273,111 @@ func H_C06_blockedwriter() {
 	vAssertE(vConnWrites(c2) == 1, "the other connection receives its response")
 	vReach("blockedwriter")
 }
+
+func init() {
+	vReg("H_C05_writers", H_C05_writers)
+	vReg("H_C05_step", H_C05_step)
+}
+
+// C05(i): concurrent handlers writing on one connection (ResponseWriters come
+// from the real serveRequests loop, so the lock identity is the code's).
+func H_C05_writers() {
+	vSchedFork(1)
+	vPreemptBudget(vLen("preemptions", 1))
+	N := 2 + vLen("extraWriters", 1)
+	m := vMux()
+	nc := vNetConn("c")
+	upgraded := vBool("afterStartTLS")
+	if upgraded && !vIsEngine() {
+		vSkipNative() // a real TLS handshake over the fake connection is not replayed natively
+	}
+	hf := func(w *ResponseWriter, r *Request) {
+		// every handler writes two frames: message ID = 10*requestID + k
+		for k := 0; k < 2; k++ {
+			vEvent("W.begin", r.ID, k)
+			err := w.Write(r.NewResponse(WithResponseCode(ResultSuccess), WithDiagnosticMessage(fmt.Sprintf("frame-%d-%d", r.ID, k))))
+			vEvent("W.end", r.ID, k)
+			vAssert(err == nil, "write succeeds")
+		}
+	}
+	vAssume(m.Delete(hf) == nil && m.Add(hf) == nil)
+	first := 1
+	if upgraded {
+		vConnSet(nc, "tlsOK", true)
+		vAssume(m.ExtendedOperation(func(w *ResponseWriter, r *Request) {
+			_ = w.Write(r.NewExtendedResponse(WithResponseCode(ResultSuccess)))
+			_ = r.StartTLS(vTLSConfig())
+		}, ExtendedOperationStartTLS) == nil)
+		vConnFeed(nc, vWire(refEnvelope(1, refStartTLSOp(), nil)))
+		first = 2
+	}
+	for i := 0; i < N; i++ {
+		vConnFeed(nc, vFrame(fmt.Sprintf("f%d", i), int64(first+i)))
+	}
+	c, err := newConn(context.Background(), 1, nc, vLogger(), m)
+	vAssume(err == nil)
+	_ = c.serveRequests()
+	c.requestsWg.Wait()
+	// the stream is a concatenation of whole LDAPMessages, one per successful Write
+	extra := 0
+	if upgraded {
+		extra = 1
+	}
+	total := vConnWrites(nc)
+	vAssert(total == 2*N+extra, "exactly one frame reaches the client per successful Write")
+	lastK := map[string]int{}
+	for i := extra; i < total; i++ {
+		p := ber.DecodePacket(vConnWriteN(nc, i))
+		vAssert(p != nil && len(p.Children) >= 2, "every chunk the client receives is one whole LDAPMessage")
+		if p == nil || len(p.Children) < 2 {
+			continue
+		}
+		if upgraded {
+			vAssertE(vConnWriteLayer(nc, i) == "tls", "after the upgrade frames travel through the TLS connection")
+		}
+		diag := ""
+		if len(p.Children[1].Children) >= 3 {
+			diag = p.Children[1].Children[2].Data.String()
+		}
+		var rid, k int
+		_, serr := fmt.Sscanf(diag, "frame-%d-%d", &rid, &k)
+		vAssert(serr == nil && rid >= first && rid < first+N && k >= 0 && k < 2, "frame is one that some handler wrote")
+		key := fmt.Sprint(rid)
+		prev, seen := lastK[key]
+		if !seen {
+			prev = -1
+		}
+		vAssert(k == prev+1, "frames of one handler arrive in the order written, none duplicated or lost")
+		lastK[key] = k
+	}
+	for i := 0; i < N; i++ {
+		vAssert(lastK[fmt.Sprint(first+i)] == 1, "both frames of every handler arrived")
+	}
+	vReach("writers")
+}
+
+// C05(ii): inductive step of one Write: from an empty buffer and a free lock,
+// Write returns nil only after emitting exactly the response's bytes, contiguously.
+func H_C05_step() {
+	r, w, sink, id := vRespSetup()
+	msg := vS("diag")
+	resp := r.NewResponse(WithResponseCode(ResultSuccess), WithDiagnosticMessage(msg))
+	fail := vBool("writeFails")
+	vConnSet(r.conn.netConn, "writeFail", fail)
+	err := w.Write(resp)
+	if fail {
+		vAssert(err != nil, "a failed write is reported")
+		vAssert(len(sink()) == 0, "nothing is counted as written")
+	} else {
+		vAssert(err == nil, "write ok")
+		vAssert(sink() == string(resp.packet().Bytes()), "exactly the response's bytes are emitted")
+		vAssert(vConnWrites(r.conn.netConn) == 1, "in one contiguous chunk")
+	}
+	// the lock is free again and the buffer empty: a second Write behaves the same
+	if !fail {
+		err2 := w.Write(r.NewResponse(WithResponseCode(ResultSuccess)))
+		vAssert(err2 == nil && vConnWrites(r.conn.netConn) == 2, "lock released and buffer empty after Write")
+	}
+	_ = id
+	vReach("step")
+}
